@@ -181,6 +181,10 @@ func ApproxEq(a, b float64) bool {
 	return d <= 1e-4*m
 }
 
+// RealEq is exact equality over the reals under symgo and the ApproxEq
+// tolerance natively (where float32 rounding applies).
+func RealEq(a, b float64) bool { return ApproxEq(a, b) }
+
 // ChooseOrder returns the order in which map keys should be visited natively
 // when MapOrder is on: natively Go's own (random) order is used, so harnesses
 // that depend on it must compare two runs themselves.
